@@ -57,8 +57,98 @@ pub fn revealed_bits(case: &MpcCase, res: &RunResult<Vec<bool>>, p: usize) -> Re
     Ok(out)
 }
 
+/// like `wide_circ` with a different number of input bits per party
+pub fn wide_circ_bits(bits: &[usize]) -> CircSpec {
+    let mut insts = vec![];
+    let mut r = 0u32;
+    for (p, b) in bits.iter().enumerate() {
+        for i in 0..*b {
+            insts.push((r, GOp::Input { party: p as u32, input: i as u32 }));
+            r += 1;
+        }
+    }
+    insts.push((r, GOp::Xor(0, bits[0] as u32)));
+    CircSpec { input_regs: bits.to_vec(), insts, max_reg_count: r as usize + 1, output_regs: vec![r], and_ops: 0 }
+}
+
+pub const DISCLOSURE_RUNS: usize = 64;
+
+/// Over 64 executions with random inputs: no bit position of anything party p sends equals (or is
+/// the complement of) p's own mask share of one of its input wires in every execution.
+fn disclosure(bits: &[usize], seed: u64, sh: &Shared) -> Result<CaseInfo, Fail> {
+    let n = bits.len();
+    let cfg = ExecCfg { record_probes: true, ..Default::default() };
+    let circ = wide_circ_bits(bits);
+    // per party: own mask share vectors over the runs, and the bit columns of its traffic
+    let mut own: Vec<Vec<u64>> = bits.iter().map(|b| vec![0u64; *b]).collect();
+    type Key = (usize, String, usize, usize);
+    let mut cols: std::collections::BTreeMap<Key, Option<Vec<u64>>> = Default::default();
+    let mut m = Mix(seed);
+    for k in 0..DISCLOSURE_RUNS {
+        let inputs: Vec<Vec<bool>> = bits.iter().map(|b| (0..*b).map(|_| m.next() & 1 == 1).collect()).collect();
+        let case = MpcCase::simple(circ.clone(), inputs.clone(), 0, (0..n).collect());
+        let run = run_mpc(&case, Adversary::default(), &cfg);
+        check_honest_result(&case, &run.res).map_err(|e| Fail::new("C06|wrong-result", e))?;
+        note_deltas(&run.res, sh)?;
+        for p in 0..n {
+            let b = revealed_bits(&case, &run.res, p).map_err(|e| Fail::new("INFRA", e))?;
+            for (w, (x, y)) in b.iter().zip(inputs[p].iter()).enumerate() {
+                own[p][w] |= ((*x ^ *y) as u64) << k;
+            }
+        }
+        for msg in &run.res.msgs {
+            let key = (msg.from, msg.label.clone(), msg.label_occ, msg.to);
+            let nbits = msg.wire.len() * 8;
+            let e = cols.entry(key).or_insert_with(|| Some(vec![0u64; nbits]));
+            match e {
+                Some(v) if v.len() == nbits => {
+                    for (i, byte) in msg.wire.iter().enumerate() {
+                        let mut bb = *byte;
+                        while bb != 0 {
+                            let t = bb.trailing_zeros() as usize;
+                            v[i * 8 + t] |= 1u64 << k;
+                            bb &= bb - 1;
+                        }
+                    }
+                }
+                // shape differs between executions: this message is not judged
+                _ => *e = None,
+            }
+        }
+    }
+    let mut positions = 0usize;
+    for p in 0..n {
+        let mut look: std::collections::HashMap<u64, usize> = Default::default();
+        for (w, r) in own[p].iter().enumerate() {
+            look.insert(*r, w);
+            look.insert(!*r, w);
+        }
+        for ((from, label, occ, to), v) in cols.iter().filter(|(k, _)| k.0 == p) {
+            let Some(v) = v else { continue };
+            positions += v.len();
+            for (j, t) in v.iter().enumerate() {
+                if let Some(w) = look.get(t) {
+                    return Err(Fail::new(
+                        format!("C06|own-mask-share-disclosed|{label}"),
+                        format!("in {DISCLOSURE_RUNS} of {DISCLOSURE_RUNS} executions with random inputs, bit {} of byte {} of the {label:?} message #{occ} that party {from} sends to party {to} equals (or complements) the party's own mask share of its input wire {w} (input sizes {bits:?})", j % 8, j / 8),
+                    ));
+                }
+            }
+        }
+    }
+    Ok(CaseInfo {
+        nontrivial: Some(hash_of(&(bits.to_vec(), seed, 99u8))),
+        extra_runs: DISCLOSURE_RUNS as u64 - 1,
+        classes: vec![format!("disclosure:n={n}")],
+        sample: Some(json!({"disclosure": {"input_bits": bits, "runs": DISCLOSURE_RUNS, "traffic_bit_positions_compared": positions}})),
+        ..Default::default()
+    })
+}
+
 #[derive(Clone, Debug, Serialize, Deserialize)]
 pub enum Case {
+    /// own-share disclosure test over 64 executions of one circuit shape
+    Disclosure { bits: Vec<usize>, seed: u64 },
     /// linear leakage test on one execution
     Linear { seed: u64 },
     /// N runs with every input bit = value; counts ones per (party, wire)
@@ -126,6 +216,7 @@ fn stride_search(hay: &[u8], bits: &[bool]) -> Option<(usize, usize)> {
 fn test_case(c: &Case, sh: &Shared) -> Result<CaseInfo, Fail> {
     let cfg = ExecCfg { record_probes: true, ..Default::default() };
     match c {
+        Case::Disclosure { bits, seed } => disclosure(bits, *seed, sh),
         Case::Balance { n, value, runs, .. } => {
             let case = MpcCase::simple(wide_circ(*n, BALANCE_BITS), vec![vec![*value; BALANCE_BITS]; *n], 0, vec![0]);
             for _ in 0..*runs {
@@ -211,7 +302,7 @@ fn note_deltas(res: &RunResult<Vec<bool>>, sh: &Shared) -> Result<(), Fail> {
 pub fn run(tier: Tier, seed: u64) -> i32 {
     let ctx = Ctx::new("C06", tier, seed, "exploration");
     let big_n = tier.pick(400usize, 4000);
-    ctx.set_rule(&format!("repeated executions (the engine's own coins are the random variable): (i) balance - n in {{2,3}}, 136 input bits per party (wire indices 0..407, i.e. every position of the 64/128-bit words in which the preprocessing bit strings are handled), every input fixed to 0 for N={big_n} runs and to 1 for N runs; from the transcript only, b = masked_input[w] XOR (shares the others sent to the owner) = x_w XOR r_P[w]; per (n, party, wire, value) cell the number of ones must lie within 6.5 sigma of N/2 (two-sided tail 8e-11 per cell, 1360 cells => < 1.1e-7 per run); (ii) canary - 128 random input bits per party: neither they nor their complement occur in any message the party sends, as packed bit stream (both bit orders, both wire orders, every bit offset) or as 0/1 bytes at any offset and stride 1..40; (iii) no own mask share of a non-output register in the share messages of the output phase; (iv) linear leakage test: the KOS check value, aBit test bits and opened aShare bits of a party (with the public coins recomputed from the openings on the wire) must not determine its private bit string under the hypothesis of constant blinding bits; (v) uniqueness of every global key (probe) and every 128-bit mask vector over all parties and executions. non-trivial = a balance cell with N complete runs / a canary execution; evaluations counts engine executions"));
+    ctx.set_rule(&format!("repeated executions (the engine's own coins are the random variable): (i) balance - n in {{2,3}}, 136 input bits per party (wire indices 0..407, i.e. every position of the 64/128-bit words in which the preprocessing bit strings are handled), every input fixed to 0 for N={big_n} runs and to 1 for N runs; from the transcript only, b = masked_input[w] XOR (shares the others sent to the owner) = x_w XOR r_P[w]; per (n, party, wire, value) cell the number of ones must lie within 6.5 sigma of N/2 (two-sided tail 8e-11 per cell, 1360 cells => < 1.1e-7 per run); (ii) canary - 128 random input bits per party: neither they nor their complement occur in any message the party sends, as packed bit stream (both bit orders, both wire orders, every bit offset) or as 0/1 bytes at any offset and stride 1..40; (iii) no own mask share of a non-output register in the share messages of the output phase; (iii') own-share disclosure over 64 executions with random inputs per circuit shape (input vectors of 1..2100 bits, also crossing the 1000-share preprocessing batch): no bit position of any message the party sends equals or complements its own mask share of an input wire in all 64 executions (chance 2^-63 per position and wire); (iv) linear leakage test: the KOS check value, aBit test bits and opened aShare bits of a party (with the public coins recomputed from the openings on the wire) must not determine its private bit string under the hypothesis of constant blinding bits; (v) uniqueness of every global key (probe) and every 128-bit mask vector over all parties and executions. non-trivial = a balance cell with N complete runs / a canary execution; evaluations counts engine executions"));
     ctx.assume("statistical: detects a constant or grossly biased mask, reuse and plain leakage; not cryptographic weakness of the generator");
     let sh = Shared { deltas: Default::default(), delta_count: Default::default(), masks: Default::default(), mask_count: Default::default(), counts: Default::default() };
     let chunk = 25;
@@ -225,6 +316,11 @@ pub fn run(tier: Tier, seed: u64) -> i32 {
     }
     for k in 0..tier.pick(12u64, 100) {
         cases.push(Case::Canary { n: 2 + (k % 2) as usize, seed: seed.wrapping_mul(1000).wrapping_add(k) });
+    }
+    // input vectors that cross the 1000-share batch boundary of the preprocessing, small ones, n=3
+    let shapes: Vec<Vec<usize>> = tier.pick(vec![vec![1100, 8], vec![600, 600], vec![136, 136, 136], vec![3, 2]], vec![vec![1100, 8], vec![8, 1100], vec![600, 600], vec![2100, 30], vec![136, 136, 136], vec![700, 400, 300], vec![3, 2], vec![1, 1, 1, 1]]);
+    for (k, b) in shapes.into_iter().enumerate() {
+        cases.insert(k * 3, Case::Disclosure { bits: b, seed: seed.wrapping_mul(31).wrapping_add(k as u64) });
     }
     for k in 0..tier.pick(8u64, 64) {
         cases.push(Case::Linear { seed: seed.wrapping_mul(7777).wrapping_add(k * 131) });
